@@ -7,6 +7,8 @@ import (
 	"fmt"
 	"go/ast"
 	"go/token"
+	"os"
+	"path/filepath"
 	"sort"
 	"strconv"
 	"strings"
@@ -149,6 +151,42 @@ func returnGuards(f *ex.File, fn string) []string {
 	return out
 }
 
+// callersOf lists "<file>:<function>" for every call of a function or method with that name in the
+// repository's non-test Go files.
+func callersOf(name string) []string {
+	var out []string
+	filepath.Walk(*ex.Repo, func(path string, info os.FileInfo, err error) error {
+		if err != nil {
+			return nil
+		}
+		if info.IsDir() {
+			if b := info.Name(); strings.HasPrefix(b, ".") && path != *ex.Repo || b == "vendor" || b == "node_modules" {
+				return filepath.SkipDir
+			}
+			return nil
+		}
+		if !strings.HasSuffix(path, ".go") || strings.HasSuffix(path, "_test.go") {
+			return nil
+		}
+		rel, _ := filepath.Rel(*ex.Repo, path)
+		f := ex.Parse(rel)
+		for _, d := range f.AST.Decls {
+			fd, ok := d.(*ast.FuncDecl)
+			if !ok || fd.Body == nil {
+				continue
+			}
+			for _, c := range f.Calls(fd.Body) {
+				if c == name || strings.HasSuffix(c, "."+name) {
+					out = append(out, rel+":"+fd.Name.Name)
+				}
+			}
+		}
+		return nil
+	})
+	sort.Strings(out)
+	return out
+}
+
 func main() {
 	ex.Header("C15")
 	cs := ex.Parse("blockchain/chainstoreffldb.go")
@@ -206,6 +244,9 @@ func main() {
 		}
 	}
 	ex.DefNat("blockCacheInvalidations", n)
+	// who calls the two reorganisation entry points that do NOT clean the UTXO cache (whole repo, non-test files)
+	ex.DefStrList("reorganizeChain2Callers", callersOf("reorganizeChain2"))
+	ex.DefStrList("exportedReorganizeChain2Callers", callersOf("ReorganizeChain2"))
 	// the condition under which GetBlock / WriteMessage evict (the if whose body deletes from the cache map)
 	ex.DefStr("blockCacheEvictCond", evictCond(cs, "ChainStoreFFLDB.GetBlock", "c.blocksCache"))
 	ex.DefStr("sendCacheEvictCond", evictCond(pm, "WriteMessage", "blocksCache"))
